@@ -138,9 +138,24 @@ WideSideBits(sub, L, R, bs) ==
     LET ov == Get(sub, "ov", [none |-> 0])
         \* "wide" override: arbitrary <<hi, lo>> side values unrelated to left / right
         side == IF Has(ov, "wide") THEN [i \in 1..bs |-> ov.wide[((i - 1) % Len(ov.wide)) + 1]] ELSE [i \in 1..bs |-> Side33(L[i], R[i])]
-        ty == IF sub.type = "constant" THEN "constant" ELSE "verbatim"
-        valid == ty = "constant" => \A i \in 1..bs : side[i] = side[1]
+        \* a predictor on the 33-bit channel, given directly by its fields (warm-up pairs "wide", residuals "res"): what it expands to is
+        \* outside the model (FlacFormat: "unsupported:33bit"), so such frames only serve the must-not-panic / bounded-memory contract
+        raw == sub.type \in {"fixed", "lpc"} /\ Has(ov, "wide") /\ Has(ov, "res") /\ sub.order <= bs
+        ty == IF raw THEN sub.type ELSE IF sub.type = "constant" THEN "constant" ELSE "verbatim"
+        ord == IF raw THEN sub.order ELSE 0
+        coef == IF ~raw THEN <<>> ELSE IF ty = "fixed" THEN FixedC[ord + 1] ELSE sub.coefs
+        res == IF raw THEN [i \in 1..(bs - ord) |-> ov.res[((i - 1) % Len(ov.res)) + 1]] ELSE <<>>
+        method == Get(sub, "method", 0)
+        po == Get(sub, "po", 0)
+        params == Get(sub, "params", << <<"esc", 31>> >>)
+        valid == /\ (ty = "constant" => \A i \in 1..bs : side[i] = side[1])
+                 /\ (raw => ResidualFits(res, bs, ord, method, po, params))
+        warm == FoldLeft(LAMBDA a, i : a \o Put33(side[i]), <<>>, [i \in 1..ord |-> i])
+        pbody == warm \o (IF ty = "lpc" THEN PutU(sub.precision - 1, 4) \o PutS(sub.shift, 5)
+                                            \o FoldLeft(LAMBDA a, c : a \o PutS(c, sub.precision), <<>>, coef) ELSE <<>>)
+                      \o ResidualBits(res, bs, ord, method, po, params)
     IN [bits |-> IF ~valid THEN <<>>
+                 ELSE IF raw THEN <<0>> \o PutU(IF ty = "fixed" THEN 8 + ord ELSE 31 + ord, 6) \o <<0>> \o pbody
                  ELSE <<0>> \o PutU(IF ty = "constant" THEN 0 ELSE 1, 6) \o <<0>>
                       \o (IF ty = "constant" THEN Put33(side[1]) ELSE FoldLeft(LAMBDA a, x : a \o Put33(x), <<>>, side)),
         ok |-> valid]
